@@ -75,9 +75,13 @@ def _sample_cfg(name, rc, tier):
 
 
 def _hand_flp(cfg, rc):
-    n, q = cfg["gen"]["num_loc"], cfg["gen"]["to_choose"]
+    n, q = cfg["gen"]["num_loc"], cfg.get("inst_quota", cfg["gen"]["to_choose"])
     grid = [0.0, 0.125, 0.25, 0.5, 0.75, 1.0]
-    mode = rc.choice(["grid", "duplicates", "line"])
+    mode = rc.choice(["grid", "duplicates", "line", "wide"])
+    if mode == "wide":
+        # coordinates far outside the unit box, as `loc_distribution="normal"` produces them; the initial
+        # `distances` bound sqrt(2)*(max_loc-min_loc) written by the generator is then NOT an upper bound
+        grid = [-3.0, -1.5, 0.0, 0.5, 1.0, 2.5, 4.0]
     pts = []
     for k in range(n):
         if mode == "line":
@@ -98,7 +102,7 @@ def _hand_flp(cfg, rc):
 
 def _hand_mcp(cfg, rc):
     g = cfg["gen"]
-    ns, ni, q = g["num_sets"], g["num_items"], g["n_sets_to_choose"]
+    ns, ni, q = g["num_sets"], g["num_items"], cfg.get("inst_quota", g["n_sets_to_choose"])
     width = rc.randint(1, max(1, g["max_size"] + 1))
     rows = []
     for s in range(ns):
@@ -238,6 +242,11 @@ class C08:
         source = rc.choice(["generator", "hand", "mixed"])
         if name == "flp" and source == "hand" and rc.random() < 0.4:
             cfg["flp_quota_2d"] = True
+        if name in ("flp", "mcp") and source == "hand" and rc.random() < 0.4:
+            # the quota is part of the instance (`to_choose` / `n_sets_to_choose`): a dataset built for
+            # another quota than the one the environment's generator was configured with
+            nmax = cfg["gen"]["num_loc"] if name == "flp" else cfg["gen"]["num_sets"]
+            cfg["inst_quota"] = rc.randint(1, nmax)
         rows, origin = [], []
         if source in ("generator", "mixed"):
             k = m if source == "generator" else max(1, m // 2)
